@@ -97,3 +97,15 @@ From FG Require PosImpl.
 Theorem C03_model_constants_dumped :
   PosImpl.GamePhaseMax = c_game_phase_max /\ Z.of_nat PosImpl.MaxHistory = c_max_moves.
 Proof. exact ConstTie.posimpl_constants_dumped. Qed.
+
+(* tie to the source: the move-word masks and shifts that PosImpl uses literally are the engine's (dumped) *)
+Theorem C03_move_layout_dumped :
+  c_square_mask = 63%N /\ c_from_mask = 4032%N /\ c_from_shift = 6%N /\
+  c_prom_type_mask = 12288%N /\ c_prom_type_shift = 12%N /\
+  c_move_type_mask = 49152%N /\ c_type_shift = 14%N.
+Proof. exact PosTabs.move_layout. Qed.
+
+(* the hypothesis [phval_nonneg t] of C03_undo_do_pseudo / C03_excursion_restores_all holds for the engine's tables *)
+Theorem C03_real_phval_nonneg : PosProofsA.phval_nonneg real_tabs.
+Proof. exact PosTabs.real_phval_nonneg. Qed.
+Print Assumptions C03_real_phval_nonneg.
